@@ -25,6 +25,14 @@ package main
 //                 order and the writer's sends never block (its write timeout
 //                 stays unreachable), so the connection is as healthy as an
 //                 idle one and the same demands apply.
+//                 Another part injects transient reader-LOCAL apply failures
+//                 (ApplyFail: the follower's local WAL or ingest buffer
+//                 refuses one entry once; nothing on the wire changes). Such
+//                 a failure may cost the reader that one entry and nothing
+//                 else: the completeness check excuses exactly the refused
+//                 entries, the stream stays as authentic and ordered as
+//                 before, so every other demand (no drop, no other entry
+//                 lost, through the following checkpoints) stands.
 //   adversarial — frame-level adversary, latency, slow reader, half-open
 //                 connections. Disconnects are expected; judged are only the
 //                 apply-side safety clauses, plus: a connection the adversary
@@ -71,6 +79,25 @@ type WriterPlan struct {
 	Ops     []WOp `json:"ops"`
 }
 
+// ApplyFail is a transient failure local to one reader (passive configuration
+// only; the wire is not touched): the Nth entry (0-based, in arrival order)
+// that the receiver hands to the reader's apply path is refused once.
+//
+//	wal         the follower's local WAL returns an I/O error: the receiver
+//	            reports the entry as not applied and carries on
+//	ingest      the local WAL took the entry, the ingest buffer refuses it
+//	            (back-pressure / cancelled request): same
+//	wal-dropped the follower's local WAL sheds the entry on back-pressure
+//	            (wal.ErrWALDropped): the receiver's own contract is that the
+//	            entry is still applied to the ingest buffer
+//
+// None of them says anything about the connection or about any other entry.
+type ApplyFail struct {
+	Reader int    `json:"reader"`
+	Nth    int    `json:"nth"`
+	Stage  string `json:"stage"`
+}
+
 type C24Plan struct {
 	Mode        string       `json:"mode"` // passive | adversarial
 	Readers     int          `json:"readers"`
@@ -92,6 +119,8 @@ type C24Plan struct {
 	StallAtUs      int64       `json:"stall_at_us,omitempty"`
 	// passive configuration only: pure delay faults (frames delivered in pieces)
 	Stalls []WireStall `json:"stalls,omitempty"`
+	// passive configuration only: transient reader-local apply failures
+	ApplyFails []ApplyFail `json:"apply_fails,omitempty"`
 	// LogYield: every log line a node emits is a scheduling point (false in
 	// replay files that predate the knob: they keep their schedule).
 	LogYield bool `json:"log_yield,omitempty"`
@@ -169,6 +198,7 @@ func genC24(r *simrt.Rand, tier string) any {
 	}
 	idle := r.Chance(6)
 	stalls := r.Chance(30)
+	applyFails := r.Chance(35)
 	p.LogYield = r.Chance(85)
 	// debugging aid: pin the configuration (the plan in a replay file is
 	// self-contained, so replays do not depend on this)
@@ -181,6 +211,8 @@ func genC24(r *simrt.Rand, tier string) any {
 		p.Mode, idle = "passive", true
 	case "stalls":
 		p.Mode, stalls = "passive", true
+	case "applyfail":
+		p.Mode, applyFails = "passive", true
 	}
 	p.Checkpoint = []int{0, 1, 1, 2, 3, 4, 5, 6, 7, 8}[r.Intn(10)]
 	p.AckMs = []int{5, 100, 100, 1000}[r.Intn(4)]
@@ -216,6 +248,9 @@ func genC24(r *simrt.Rand, tier string) any {
 		}
 		if stalls {
 			genStalls(r, p)
+		}
+		if applyFails {
+			genApplyFails(r, p)
 		}
 		return p
 	}
@@ -311,6 +346,38 @@ func genStalls(r *simrt.Rand, p *C24Plan) {
 	}
 }
 
+// genApplyFails adds one to three transient reader-local apply failures to a
+// passive run. Positions lean towards the first half of the stream so that
+// entries (and, with the small checkpoint intervals drawn above, checkpoints)
+// keep coming on the same connection after the failure.
+func genApplyFails(r *simrt.Rand, p *C24Plan) {
+	total := 0
+	for _, w := range p.Writers {
+		total += len(w.Ops)
+	}
+	if total == 0 {
+		return
+	}
+	n := 1 + r.Intn(2)
+	if r.Chance(10) {
+		n = 3
+	}
+	used := map[[2]int]bool{}
+	for i := 0; i < n; i++ {
+		f := ApplyFail{Reader: r.Intn(p.Readers), Nth: r.Intn(total)}
+		if r.Chance(50) {
+			f.Nth = r.Intn((total + 1) / 2)
+		}
+		f.Stage = []string{"wal", "wal", "ingest", "ingest", "wal-dropped"}[r.Intn(5)]
+		k := [2]int{f.Reader, f.Nth}
+		if used[k] {
+			continue
+		}
+		used[k] = true
+		p.ApplyFails = append(p.ApplyFails, f)
+	}
+}
+
 // ---------------------------------------------------------------------------
 // execution
 
@@ -363,6 +430,15 @@ func (s *logSink) Write(b []byte) (int, error) {
 	return n, nil
 }
 
+// failedRec is one entry whose local apply the injector refused.
+type failedRec struct {
+	Hash  string
+	Stage string
+	Nth   int
+	At    int64
+	Link  *link
+}
+
 type readerState struct {
 	id      string
 	node    *simrt.Node
@@ -370,7 +446,15 @@ type readerState struct {
 	applied []appliedRec
 	walGot  []string
 	log     *logSink
+	// reader-local apply failures (passive configuration)
+	arrivals   int            // entries handed to the apply path so far
+	nthOf      map[string]int // payload hash -> arrival index
+	failed     []failedRec    // entries refused with an error: not applied
+	walDropped []string       // entries the local WAL shed (must still be applied)
 }
+
+var errSimLocalWAL = fmt.Errorf("simulated: follower WAL write: input/output error")
+var errSimIngest = fmt.Errorf("simulated: ingest buffer refused the entry (back-pressure)")
 
 type c24run struct {
 	p           *C24Plan
@@ -525,7 +609,7 @@ func (st *c24run) body(dir string) {
 	}
 
 	for i := 0; i < p.Readers; i++ {
-		rs := &readerState{id: fmt.Sprintf("reader-%d", i), node: simrt.NodeOf(fmt.Sprintf("reader%d", i)), log: &logSink{yield: p.LogYield}}
+		rs := &readerState{id: fmt.Sprintf("reader-%d", i), node: simrt.NodeOf(fmt.Sprintf("reader%d", i)), log: &logSink{yield: p.LogYield}, nthOf: map[string]int{}}
 		st.readers = append(st.readers, rs)
 		ri := i
 		delay := time.Duration(0)
@@ -535,17 +619,38 @@ func (st *c24run) body(dir string) {
 		h := simrt.GoOn("reader-boot", rs.node, func() {
 			rs.recv = replication.NewReceiver(&replication.ReceiverConfig{
 				ReaderID: rs.id, WriterAddr: fmt.Sprintf("sim-writer:9100#%d", ri),
-				LocalWAL: walRecorder(func(pl []byte) { rs.walGot = append(rs.walGot, phash(pl)) }),
+				LocalWAL: walRecorder(func(pl []byte) error {
+					hsh := phash(pl)
+					k := rs.arrivals
+					rs.arrivals++
+					rs.nthOf[hsh] = k
+					switch st.applyFailFor(ri, k) {
+					case "wal":
+						rs.failed = append(rs.failed, failedRec{Hash: hsh, Stage: "wal", Nth: k, At: simrt.SimNow(), Link: st.curLink(ri)})
+						simrt.Event("APPLY-FAIL r%d #%d %s stage=wal", ri, k, hsh)
+						simrt.Count("fault.apply_fail_wal", 1)
+						return errSimLocalWAL
+					case "wal-dropped":
+						rs.walDropped = append(rs.walDropped, hsh)
+						simrt.Event("APPLY-WALDROP r%d #%d %s", ri, k, hsh)
+						simrt.Count("fault.apply_wal_dropped", 1)
+						return fmt.Errorf("follower wal: %w", wal.ErrWALDropped)
+					}
+					rs.walGot = append(rs.walGot, hsh)
+					return nil
+				}),
 				IngestHandler: replication.IngestHandlerFunc(func(ctx context.Context, pl []byte) error {
 					if delay > 0 {
 						simrt.Sleep(delay)
 					}
-					ls := st.linksOf(ri)
-					var cur *link
-					if len(ls) > 0 {
-						cur = ls[len(ls)-1]
-					}
+					cur := st.curLink(ri)
 					hsh := phash(pl)
+					if k, ok := rs.nthOf[hsh]; ok && st.applyFailFor(ri, k) == "ingest" {
+						rs.failed = append(rs.failed, failedRec{Hash: hsh, Stage: "ingest", Nth: k, At: simrt.SimNow(), Link: cur})
+						simrt.Event("APPLY-FAIL r%d #%d %s stage=ingest", ri, k, hsh)
+						simrt.Count("fault.apply_fail_ingest", 1)
+						return errSimIngest
+					}
 					rs.applied = append(rs.applied, appliedRec{Hash: hsh, At: simrt.SimNow(), Link: cur})
 					simrt.Event("APPLY r%d %s", ri, hsh)
 					return nil
@@ -747,9 +852,59 @@ func (st *c24run) alignToReadDeadline(k int) {
 	}
 }
 
-type walRecorder func([]byte)
+type walRecorder func([]byte) error
 
-func (f walRecorder) AppendRaw(p []byte) error { f(p); return nil }
+func (f walRecorder) AppendRaw(p []byte) error { return f(p) }
+
+// applyFailFor returns the stage at which the k-th entry arriving at the
+// reader is to be refused ("" = not at all). Passive configuration only.
+func (st *c24run) applyFailFor(reader, k int) string {
+	if st.p.Mode != "passive" {
+		return ""
+	}
+	for _, f := range st.p.ApplyFails {
+		if f.Reader == reader && f.Nth == k {
+			return f.Stage
+		}
+	}
+	return ""
+}
+
+// curLink is the reader's most recent connection.
+func (st *c24run) curLink(reader int) *link {
+	ls := st.linksOf(reader)
+	if len(ls) == 0 {
+		return nil
+	}
+	return ls[len(ls)-1]
+}
+
+// closesCheckpointWindow reports whether the entry with this payload was the
+// last one before a checkpoint on the connection (the next frame handed to the
+// reader after it is a checkpoint).
+func closesCheckpointWindow(l *link, hash string) bool {
+	dlv := l.half[1].dlv
+	for i, f := range dlv {
+		if f.Entry && f.PHash == hash {
+			return i+1 < len(dlv) && dlv[i+1].CP
+		}
+	}
+	return false
+}
+
+// checkpointAfter reports whether a checkpoint was handed to the reader on l
+// after the entry with this payload.
+func checkpointAfter(l *link, hash string) bool {
+	seen := false
+	for _, f := range l.half[1].dlv {
+		if f.Entry && f.PHash == hash {
+			seen = true
+		} else if seen && f.CP {
+			return true
+		}
+	}
+	return false
+}
 
 // ---------------------------------------------------------------------------
 // oracle
@@ -954,6 +1109,30 @@ func judgeC24(st *c24run, out *simkit.Outcome) {
 					if reason == "sequence-not-advancing" && wireSeqReuse(l) {
 						reason += ".writer-numbered-two-entries-alike"
 					}
+					// circumstance: before the drop the reader had failed to
+					// apply an entry of this connection locally (injected). That
+					// costs the entry, it does not make the stream any less
+					// authentic or ordered. One sub-case is told apart because
+					// the protocol treats it differently: the refused entry was
+					// the last one before a checkpoint.
+					nFail, closing := 0, false
+					for _, f := range rs.failed {
+						if f.Link == l && f.At <= l.closedAt {
+							nFail++
+							if closesCheckpointWindow(l, f.Hash) {
+								closing = true
+							}
+						}
+					}
+					if nFail > 0 {
+						if closing && strings.HasPrefix(reason, "checkpoint-sequence-mismatch") {
+							// (one id whatever else happened on the connection: the
+							// refused entry accounts for the mismatch by itself)
+							reason = "checkpoint-sequence-mismatch.after-local-apply-failure-on-entry-closing-a-checkpoint-window"
+						} else {
+							reason += ".after-local-apply-failure"
+						}
+					}
 				} else {
 					reason = "writer-side"
 					if l.ends[1].midTO > 0 {
@@ -975,17 +1154,34 @@ func judgeC24(st *c24run, out *simkit.Outcome) {
 		}
 		// completeness: every entry queued while connected is applied, except
 		// as many as the writer itself counted as dropped
-		var missing []string
+		// ... and except exactly the entries whose local apply the injector
+		// refused on this reader (a reader-local failure may cost that entry,
+		// nothing else). An entry the local WAL merely shed is not excused.
+		refused := map[string]string{}
+		for _, f := range rs.failed {
+			refused[f.Hash] = f.Stage
+		}
+		var missing, excused []string
 		for _, h := range st.hooks {
 			if !h.Covered {
 				continue
 			}
 			if _, ok := seen[h.Hash]; !ok {
+				if stg, ok := refused[h.Hash]; ok {
+					excused = append(excused, fmt.Sprintf("hook#%d(%s)", h.Idx, stg))
+					continue
+				}
 				missing = append(missing, fmt.Sprintf("hook#%d(producer %d, seq %d)", h.Idx, h.Writer, trueSeq[h.Hash]))
 			}
 		}
 		if int64(len(missing)) > st.dropped {
-			out.Violate("C24.passive.entry-lost-without-drop-report", "reader %d stayed connected; %d queued entries were never applied but the writer reports only %d dropped: %v", ri, len(missing), st.dropped, missing)
+			circ := ""
+			if len(rs.failed) > 0 {
+				circ = ".after-local-apply-failure"
+			} else if len(rs.walDropped) > 0 {
+				circ = ".after-local-wal-shed-an-entry"
+			}
+			out.Violate("C24.passive.entry-lost-without-drop-report"+circ, "reader %d stayed connected; %d queued entries were never applied but the writer reports only %d dropped: %v (entries whose local apply was refused by the injector, not counted: %v; shed by the local WAL only: %d)", ri, len(missing), st.dropped, missing, excused, len(rs.walDropped))
 		}
 	}
 }
@@ -1056,6 +1252,32 @@ func runC24(planAny any, cfg simrt.Config) *simkit.Outcome {
 		}
 	}
 	out.Stats["probe.checkpoints_sent"] += int64(cps)
+	nRefused, nShed, thenCP, thenCPmid := 0, 0, 0, 0
+	for _, rs := range st.readers {
+		nRefused += len(rs.failed)
+		nShed += len(rs.walDropped)
+		for _, f := range rs.failed {
+			if f.Link != nil && checkpointAfter(f.Link, f.Hash) {
+				thenCP++
+				if !closesCheckpointWindow(f.Link, f.Hash) {
+					thenCPmid++
+				}
+			}
+		}
+	}
+	if nRefused > 0 {
+		out.Stats["probe.run_with_local_apply_failure"]++
+		out.Stats["probe.local_apply_failures"] += int64(nRefused)
+	}
+	if thenCP > 0 {
+		out.Stats["probe.run_with_checkpoint_after_local_apply_failure"]++
+	}
+	if thenCPmid > 0 {
+		out.Stats["probe.run_with_checkpoint_after_local_apply_failure_mid_window"]++
+	}
+	if nShed > 0 {
+		out.Stats["probe.run_with_local_wal_shed"]++
+	}
 	out.Stats["mode."+mode]++
 	if st.net.stalled > 0 {
 		out.Stats["probe.run_with_frame_in_pieces"]++
@@ -1130,7 +1352,23 @@ func shrinkC24(planAny any) []any {
 			})
 		}
 	}
-	add(func(q *C24Plan) bool { ok := q.Readers > 1; q.Readers = 1; return ok })
+	for i := range p.ApplyFails {
+		i := i
+		add(func(q *C24Plan) bool { q.ApplyFails = append(q.ApplyFails[:i], q.ApplyFails[i+1:]...); return true })
+		if p.ApplyFails[i].Nth > 0 {
+			add(func(q *C24Plan) bool { q.ApplyFails[i].Nth--; return true })
+		}
+	}
+	add(func(q *C24Plan) bool {
+		if q.Readers <= 1 {
+			return false
+		}
+		q.Readers = 1
+		for i := range q.ApplyFails {
+			q.ApplyFails[i].Reader = 0
+		}
+		return true
+	})
 	add(func(q *C24Plan) bool { ok := q.Early; q.Early = false; return ok })
 	add(func(q *C24Plan) bool { ok := q.Checkpoint != 0; q.Checkpoint = 0; return ok })
 	add(func(q *C24Plan) bool { ok := q.LatencyUs != 0; q.LatencyUs = 0; return ok })
@@ -1190,7 +1428,11 @@ func descC24(planAny any) any {
 	for _, x := range p.Stalls {
 		stalls = append(stalls, fmt.Sprintf("r%d/c%d/d%d#%d cuts=%v gap_ms=%v past_deadline=%v", x.Reader, x.Conn, x.Dir, x.Frame, x.Cuts, x.GapMs, x.PastDeadline))
 	}
-	return map[string]any{"stalls": stalls, "mode": p.Mode, "readers": p.Readers, "writers": len(p.Writers), "ops": ops, "buffer_size": p.BufferSize,
+	var afs []string
+	for _, f := range p.ApplyFails {
+		afs = append(afs, fmt.Sprintf("r%d#%d:%s", f.Reader, f.Nth, f.Stage))
+	}
+	return map[string]any{"apply_fails": afs, "stalls": stalls, "mode": p.Mode, "readers": p.Readers, "writers": len(p.Writers), "ops": ops, "buffer_size": p.BufferSize,
 		"checkpoint": p.Checkpoint, "early": p.Early, "faults": kinds, "latency_us": p.LatencyUs, "conn_cap": p.ConnCap,
 		"apply_delay_us": p.ApplyDelayUs, "reconnect_ms": p.ReconnectMs, "log_yield": p.LogYield}
 }
